@@ -115,6 +115,22 @@ def spec_candidates(spec):
         # simplify a type to i32 is not attempted: the data would need regenerating
 
 
+def list_candidates(items, keep_min=0):
+    """ddmin-style sublists: drop halves, quarters, ... then single elements."""
+    n = len(items)
+    if n <= keep_min:
+        return
+    step = max(1, n // 2)
+    while True:
+        for a in range(0, n, step):
+            cand = items[:a] + items[a + step:]
+            if len(cand) >= keep_min and len(cand) < n:
+                yield cand
+        if step == 1:
+            break
+        step = max(1, step // 2)
+
+
 def minimise(case, execute, candidates, tag, budget_s=120, max_exec=3000, log=None):
     """Greedy ddmin: returns (minimised case, number of executions)."""
     t0 = time.time()
